@@ -6,7 +6,7 @@ TheRec == ndJsonDeserialize(IOEnv.TRACE)
 TheComp == IOEnv.COMP
 VARIABLES fs, ss, es, kout, l, sid, sync
 ImSName(x) == x
-ImAlive(f, s, e) == f # 0 /\ s # 0 /\ e # 0
+ImAlive(f, s, e) == StageExplored(f, s, e)
 T == INSTANCE TraceKb WITH
        Rec <- TheRec, Comp <- TheComp, Mode <- "wiring",
        FInit <- ImFInit, FBitOut <- ImFBitOut, FBitNext <- ImFBitNext, FClear <- ImFClear, FWordOut <- ImFWordOut,
